@@ -492,7 +492,8 @@ constructor on `allCtorSkipped` (see `ctor_extraction_complete`); external pydic
 their arguments and are listed per entry in the generated files — in every run on the store semantics (any world of the caller: the
 same object passed as two arguments, a data set that is also an item of another argument, any nesting; any valuation of the
 conditions, loops unrolled twice; any oracle; any effect of writes) each cell of the caller `c < W.base` ends with the content it
-started with.  Shared `DataElement` objects (`Dataset.add`) are cells: assigning an attribute of a data set writes the elements that
+started with.  Objects that exist before the call and outlive it (mutable module globals, class attributes, the result of an
+`lru_cache`'d helper) are extra parameters of the programs, so they are among the cells that are never written.  Shared `DataElement` objects (`Dataset.add`) are cells: assigning an attribute of a data set writes the elements that
 were shared into it.  Constructors with more than 2^5 paths (marked `(arms merged)`) have the arms of their branches merged (weak
 update at the join) instead of enumerated — a coarser but still sound abstraction of the same code. -/
 theorem constructors_never_write_arguments (e : Entry) (he : e ∈ allCtors)
